@@ -223,6 +223,28 @@ func (c *ctx) c20Step(size int64) int64 {
 	return c.rng.Int63n(1000)
 }
 
+// c20Unclamped is set when the tree under test renders positions beyond the size without
+// clamping them (the code before the getDisplayStep fix).  Such a tree does not only panic
+// on a negative repeat count: a step far beyond the size makes getProgressBar ask
+// strings.Repeat for terabytes, which kills the process (fatal error: out of memory, not a
+// recoverable panic).  The harness then keeps positions within 8x the size so that it can
+// still report.
+var c20Unclamped bool
+
+func c20Safe(step, size int64) bool {
+	if !c20Unclamped || size == 0 {
+		return true
+	}
+	as, az := step, size
+	if as < 0 {
+		as = -as
+	}
+	if az < 0 {
+		az = -az
+	}
+	return as >= 0 && as/8 <= az
+}
+
 func c20Recover(f func()) (panicked bool, msg string) {
 	defer func() {
 		if r := recover(); r != nil {
@@ -246,6 +268,7 @@ func genProgress(c *ctx) {
 		p.OnName("a.txt")
 		p.OnSize(d[0])
 		if pan, msg := c20Recover(func() { p.OnStep(d[1]) }); pan {
+			c20Unclamped = true
 			c.violate(c20Key("panic:size=", d[0], ",step=", d[1]), "rendering the progress line panics",
 				fmt.Sprintf("newTextProgressBar(columns=100) onNum(1) onName(\"a.txt\") onSize(%d) onStep(%d): panic: %s", d[0], d[1], msg))
 		}
@@ -361,11 +384,15 @@ func c20CountCells(s string) (full, empty int) {
 }
 
 func (c *ctx) c20BarOracle(step, size int64, length int) (string, bool) {
+	if !c20Safe(step, size) {
+		c.count("skipped:unclamped-tree-would-exhaust-memory")
+		return "", true
+	}
 	p := trzsz.VerifNewProgress(100, 0, "")
 	p.SetState(1, 1, "x", step, size)
 	var s string
 	if pan, msg := c20Recover(func() { s = p.GetProgressBar(length) }); pan {
-		c.violate(c20Key("panic:bar:size=", size, ",step=", step, ",length=", length), "getProgressBar panics",
+		c.violate("panic:getProgressBar", "getProgressBar panics",
 			fmt.Sprintf("fileSize=%d fileStep=%d getProgressBar(%d): panic: %s", size, step, length, msg))
 		return "panic", false
 	}
@@ -381,6 +408,9 @@ func (c *ctx) c20BarOracle(step, size int64, length int) (string, bool) {
 }
 
 func (c *ctx) c20Bar(step, size int64, length int, colored bool) {
+	if !c20Safe(step, size) {
+		return
+	}
 	s, ok := c.c20BarOracle(step, size, length)
 	strip := "0"
 	if colored && ok {
@@ -400,6 +430,9 @@ func (c *ctx) c20Bar(step, size int64, length int, colored bool) {
 }
 
 func (c *ctx) c20Pct(step, size int64) {
+	if !c20Safe(step, size) {
+		return
+	}
 	// through the real state machine: wide probe bar, empty name
 	p := trzsz.VerifNewProgress(400, 0, "")
 	p.OnNum(1)
@@ -408,7 +441,7 @@ func (c *ctx) c20Pct(step, size int64) {
 	p.TakeOutput()
 	var out string
 	if pan, msg := c20Recover(func() { p.OnStep(step); out = p.TakeOutput() }); pan {
-		c.violate(c20Key("panic:size=", size, ",step=", step), "rendering the progress line panics",
+		c.violate("panic:showProgress", "rendering the progress line panics",
 			fmt.Sprintf("newTextProgressBar(columns=400) onNum(1) onName(\"\") onSize(%d) onStep(%d): panic: %s", size, step, msg))
 		return
 	}
@@ -448,12 +481,12 @@ func c20Fields(out string) []string {
 
 func (c *ctx) c20PctRange(pct, where string) (int, bool) {
 	if !strings.HasSuffix(pct, "%") {
-		c.violate("pct-shape:"+where, "percentage field does not end in %", where+" pct="+pct)
+		c.violate("pct-shape", "percentage field does not end in %", where+" pct="+pct)
 		return 0, false
 	}
 	v, err := strconv.Atoi(strings.TrimSuffix(pct, "%"))
 	if err != nil || v < 0 || v > 100 || strings.HasPrefix(pct, "-") {
-		c.violate("pct-range:"+where, "percentage outside 0..100", where+" pct="+pct)
+		c.violate("pct-range", "percentage outside 0..100", where+" pct="+pct)
 		return 0, false
 	}
 	return v, true
@@ -473,7 +506,7 @@ func (c *ctx) c20Text(cols, count, idx int, name string, step, size int64, pct, 
 	where := fmt.Sprintf("columns=%d fileCount=%d fileIdx=%d fileName=%s fileStep=%d fileSize=%d getProgressText(%q,%q,%q,%q)",
 		cols, count, idx, c20Runes(name), step, size, pct, total, speed, eta)
 	if pan, msg := c20Recover(func() { s = p.GetProgressText(pct, total, speed, eta) }); pan {
-		c.violate(c20Key("panic:text:size=", size, ",step=", step), "getProgressText panics", where+": panic: "+msg)
+		c.violate("panic:getProgressText", "getProgressText panics", where+": panic: "+msg)
 		res = "panic"
 	} else {
 		if color != "" {
@@ -496,7 +529,7 @@ func (c *ctx) c20Text(cols, count, idx int, name string, step, size int64, pct, 
 		}
 		_ = lw
 		if cols >= 5 && len(pct) <= 4 && width > cols {
-			c.violate(c20Key("width:cols=", cols, ",name=", c20Runes(name)), "progress text wider than the terminal",
+			c.violate("width:getProgressText", "progress text wider than the terminal",
 				fmt.Sprintf("%s: width=%d text=%q", where, width, s))
 		}
 		if width > cols {
@@ -614,6 +647,11 @@ func (c *ctx) c20Run(cur *int64, base int64) {
 	desc := fmt.Sprintf("newTextProgressBar(columns=%d, tmuxPaneColumns=%d)", cols, tmux)
 	panicked := false
 	for _, o := range plan {
+		if o.kind == "S" {
+			if _, _, _, fsize, pre, _, _ := p.State(); !c20Safe(o.z+pre, fsize) {
+				continue
+			}
+		}
 		// time: mostly beyond the redraw throttle, sometimes within it, sometimes no time at all
 		switch c.rng.Intn(6) {
 		case 0:
@@ -690,8 +728,7 @@ func (c *ctx) c20Run(cur *int64, base int64) {
 			if !pan {
 				msg = pmsg + " (at 2000 columns)"
 			}
-			_, _, fstep, fsize, _, _, _ := p.State()
-			c.violate(c20Key("panic:size=", fsize, ",step=", fstep), "rendering the progress line panics", desc+": panic: "+msg)
+			c.violate("panic:history", "rendering the progress line panics", desc+": panic: "+msg)
 			if !pan {
 				return
 			}
@@ -724,12 +761,12 @@ func (c *ctx) c20Run(cur *int64, base int64) {
 			}
 			first = false
 			if w := c20Width(text); curCols >= 5 && w > curCols {
-				c.violate(c20Key("width:cols=", curCols, ",name=", c20Runes(name)), "progress line wider than the terminal",
+				c.violate("width:history", "progress line wider than the terminal",
 					fmt.Sprintf("%s: columns=%d width=%d line=%q", desc, curCols, w, text))
 			}
 			if v, ok := c.c20PctRange(fields[0], desc); ok {
 				if v < lastPct {
-					c.violate("pct-decreased:"+desc, "percentage decreased within a file", fmt.Sprintf("%s: %d%% after %d%%", desc, v, lastPct))
+					c.violate("pct-decreased", "percentage decreased within a file", fmt.Sprintf("%s: %d%% after %d%%", desc, v, lastPct))
 				}
 				lastPct = v
 			}
